@@ -47,7 +47,7 @@ def val_of(v):
 
 def in_val(s, tok):
     cs, e, m = tok.split(":")
-    return {"cat": cs[0], "sign": int(cs[1]) if len(cs) > 1 else 0, "exp": int(e), "mant": int(m, 16), "sem": s}
+    return {"cat": cs[0], "sign": int(cs[1]) if len(cs) > 1 else 0, "exp": int(e), "mant": int(m.split("~")[0], 16), "sem": s}
 
 
 def ulp_of(v):
